@@ -95,8 +95,9 @@ def post_for(method, n, s0, o, c, arg, field, info):
             if is_index_err(v):
                 return And(too_far, lst_eq(cur, s0))
             if v.variant == "Err":
-                # the argument was refused by the validate-by-reparse check (C15's subject); nothing asserted here
-                return Not(too_far) if method != "delete_data" else False
+                # the edit was refused by the validate-by-reparse check (C15's subject): only atomicity is asserted here
+                # (replace_data is delete + insert, its second half may refuse after the first has happened)
+                return Not(too_far) if method in ("replace_data", "set_data") else And(Not(too_far), lst_eq(cur, s0))
             if method == "insert_data":
                 return And(Not(too_far), Or(*[And(ucmp("==", o, a), lst_eq(cur, s0[:a] + arg + s0[a:])) for a in range(n + 1)]))
             if method == "append_data":
@@ -260,8 +261,8 @@ def violates(w, real):
         return True, "panics: %s" % str(real)[:80]
     exp = spec_concrete(w)
     if exp["ok"] != bool(real.get("ok")):
-        if exp["ok"] and not real.get("ok") and "IndexSizeErr" not in str(real.get("err")) and w["method"] in ("insert_data", "replace_data", "append_data", "set_data"):
-            return False, "argument refused (C15)"
+        if exp["ok"] and not real.get("ok") and "IndexSizeErr" not in str(real.get("err")) and w["method"] in ("insert_data", "replace_data", "append_data", "set_data", "delete_data"):
+            return (w["method"] not in ("replace_data", "set_data") and real.get("data") != w["content"]), "edit refused (C15) but data changed"
         return True, "expected %s, real %s" % (exp, {k: real.get(k) for k in ("ok", "err", "value", "data")})
     if not exp["ok"]:
         if "IndexSizeErr" not in str(real.get("err")):
